@@ -1119,7 +1119,7 @@ def trcopy_drift(scripts, traces):
     compared = bad = 0
     first = None
     for sc in scripts:
-        if 'trcopy' not in sc.get('tags', []) and 'sortprim' not in sc.get('tags', []):
+        if not {'trcopy', 'sortprim', 'trsort'} & set(sc.get('tags', [])):
             continue
         tr = traces.get(sc['tid'])
         if not tr:
@@ -1134,7 +1134,7 @@ def trcopy_drift(scripts, traces):
                 bad += 1
                 first = first or dict(tid=sc['tid'], op={k: v for k, v in o.items() if k != 'expect'}, predicted=ex,
                                       recorded={k: e.get(k) for k in ex})
-    return dict(compared=compared, disagreements=bad, first=first, model='TrCopy.tla (trCopy, trPartialCopy), SortPrims.tla (trHeapSort, trInsertionSort)')
+    return dict(compared=compared, disagreements=bad, first=first, model='TrCopy.tla (trCopy, trPartialCopy), SortPrims.tla (trHeapSort, trInsertionSort), TrSortImpl.tla (trSort)')
 
 
 def run_suffix(ctx, fam):
@@ -1156,6 +1156,9 @@ def run_suffix(ctx, fam):
         log('[C09] sorting fall-backs of the rank sort (SortPrims.tla: transcribed trHeapSort / trInsertionSort on every small input)')
         pops = vlib.tlc_enum(ctx, 'SortPrims.tla', 'SortPrims_genT.cfg' if t else 'SortPrims_gen.cfg', timeout=2400)
         scripts += chunk_suffix(pops, 'sortprim-enum', 2000, ['tlc-enum', 'sortprim'])
+        log('[C09] the whole rank sort (TrSortImpl.tla: trSort / trIntroSort / trPartition / trPivot / budget transcribed; TrSortMC: every small rank string x size threshold)')
+        sops = vlib.tlc_enum(ctx, 'TrSortMC.tla', 'TrSortMC_genT.cfg' if t else 'TrSortMC_gen.cfg', timeout=3000)
+        scripts += chunk_suffix(sops, 'trsort-enum', 1000, ['tlc-enum', 'trsort'])
         fam = dict(fam, _drift=trcopy_drift)
         log('[C09] LCP by the phi algorithm (LcpPhi.tla: the carried length is sound, the table is the definition)')
         vlib.tlc_mc(ctx, 'LcpPhi.tla', 'LcpPhi_T.cfg' if t else 'LcpPhi.cfg', workers='16', timeout=1500)
